@@ -332,16 +332,30 @@ def reqUser (cfg : Config) (c : ConsumerReq) : Nat :=
 
 /-! `ensure_consumer` for one entry; `k` is the rest of the request given the updated locals -/
 
+/-- lost the creation race (`ConsumerExists`), type differs: `consumer.update()` -/
+def aAdoptUpdate (ctx : ACtx R) (c : ConsumerReq) (cons : ConsRow) (t : Option Nat) (k : ACtx R → P R)
+    (db : DB R) : DB R × P R :=
+  let attr : ReqAttr := { project := reqProject ctx.cfg c, user := reqUser ctx.cfg c, ctype := t }
+  let cs := db.consumers.map (fun x =>
+    if x.id == cons.id && x.gen == cons.gen then { x with ctype := t } else x)
+  ({ db with consumers := cs }, k { ctx with done := ctx.done ++ [(c, { cons with ctype := t }, attr)] })
+
+/-- lost the creation race: the existing record is read again and adopted (no generation check);
+if it has meanwhile been deleted the `ConsumerNotFound` escapes (404) -/
+def aAdopt (ctx : ACtx R) (c : ConsumerReq) (t : Option Nat) (k : ACtx R → P R)
+    (db : DB R) : DB R × P R :=
+  let attr : ReqAttr := { project := reqProject ctx.cfg c, user := reqUser ctx.cfg c, ctype := t }
+  match db.consByUuid c.uuid with
+  | none => (db, cleanupThen ctx.created r404)
+  | some cons =>
+    if t != cons.ctype then (db, .txn .updateConsumer (aAdoptUpdate ctx c cons t k))
+    else (db, k { ctx with done := ctx.done ++ [(c, cons, attr)] })
+
 def aCreateConsumer (ctx : ACtx R) (c : ConsumerReq) (t : Option Nat) (k : ACtx R → P R)
     (db : DB R) : DB R × P R :=
   let attr : ReqAttr := { project := reqProject ctx.cfg c, user := reqUser ctx.cfg c, ctype := t }
   match db.consByUuid c.uuid with
-  | some cons =>
-    -- lost the creation race (`ConsumerExists`): the existing record is adopted
-    let cs := db.consumers.map (fun x =>
-      if x.id == cons.id && x.gen == cons.gen then { x with ctype := t } else x)
-    let db' := if t != cons.ctype then { db with consumers := cs } else db
-    (db', k { ctx with done := ctx.done ++ [(c, { cons with ctype := t }, attr)] })
+  | some _ => (db, .txn .getConsumer (aAdopt ctx c t k))
   | none =>
     let row : ConsRow := { id := db.nextCons, uuid := c.uuid, project := attr.project, user := attr.user,
                            ctype := t, gen := 0 }
